@@ -233,14 +233,16 @@ func (vm *VirtualMachine) runCodeInternal(ctx context.Context, codeToRun *compil
 	vm.activateCode(0, startIP, codeObj)
 
 	// Run the entrypoint until completion
-	if err := vm.eval(vm.initContext(ctx)); err != nil {
-		return err
+	err = vm.eval(vm.initContext(ctx))
+	// A builtin that waits (one that drains a channel, say) takes the
+	// cancellation of the context as the end of what it waits for and returns
+	// normally. The code then runs on until the watcher above has set the halt
+	// flag: it may complete, or fail on the half-done result. Either way the
+	// evaluation ended because its context did, and reports that.
+	if cerr := ctx.Err(); cerr != nil {
+		return cerr
 	}
-	// A blocking builtin (time.sleep, the iterator of a channel) takes the
-	// cancellation of the context as its own end and returns normally. If the
-	// code then completes before the watcher above has set the halt flag, the
-	// evaluation must still report the context's error.
-	return ctx.Err()
+	return err
 }
 
 // resetForNewCode resets the VM state for running a new code object
@@ -710,6 +712,11 @@ func (vm *VirtualMachine) eval(ctx context.Context) error {
 			nameCount := vm.fetch()
 			iter := vm.pop().(object.Iterator)
 			if _, ok := iter.Next(ctx); !ok {
+				// An iterator that waits (a channel's) also ends when the
+				// context does: that is not the end of the loop
+				if err := ctx.Err(); err != nil {
+					return err
+				}
 				vm.ip = base + int(jumpAmount)
 			} else {
 				obj, _ := iter.Entry()
@@ -849,12 +856,10 @@ func (vm *VirtualMachine) Call(
 		vm.stop()
 	}()
 	result, err = vm.callFunction(vm.initContext(ctx), fn, args)
-	if err == nil {
-		// See runCodeInternal: a call that completed because a blocking builtin
-		// gave up on the cancelled context reports the context's error.
-		if err = ctx.Err(); err != nil {
-			result = nil
-		}
+	// See runCodeInternal: a call that ended because its context did reports
+	// the context's error.
+	if cerr := ctx.Err(); cerr != nil {
+		return nil, cerr
 	}
 	return result, err
 }
